@@ -157,6 +157,13 @@ def run(tier: str) -> int:
         h = [list(x) for x in st["hist"]]
         if len(h) == 4 and useful(h) and len({op[2] for op in h if op[0] == "Write"}) == 2:
             hists.append([tuple(op) for op in h])
+    # the same bytes under two languages (a.py, pkg/b.js): each entry is the analysis of the content as ITS language
+    tl = dict(Paths='{"p1", "p4"}', Contents='{"c1", "c5"}', MaxOps=4, Ops='{"Write", "Scan", "Rename"}', FaultKinds='{"truncated"}')
+    g6 = tlc.run("Workspace", tlc.cfg(tl, spec="Spec", invariants=["TypeOK"]), wd, dump=True, cfgname="Workspace_langs.cfg", coverage=False)
+    for st in read_dump(g6.dump):
+        h = [list(x) for x in st["hist"]]
+        if len(h) in (3, 4) and useful(h) and any(op[0] in ("Write", "Rename") and "p4" in op for op in h):
+            hists.append([tuple(op) for op in h])
     log(f"[C09] G near twins: {len(hists) - n4} histories that rewrite a file with the same text behind a byte order mark")
     log(f"[C09] G altered entries: {n4 - n3} histories with an ill-typed field in an entry whose path and checksum still match")
     log(f"[C09] G histories: {n1} of length {b['replay']['MaxOps']} over all operations, {n2 - n1} of length 5 for the version guard, {n3 - n2} of length 5 for path identity (same file name in two directories)")
@@ -174,7 +181,7 @@ def run(tier: str) -> int:
             events.append(ev)
             owner.append((hi, si))
     log(f"[C09] G replayed {len(hists)} exhaustive histories of length {b['replay']['MaxOps']} + {len(rnd)} random ones on real directories: {len(events)} steps, {t.s()}s")
-    rejected = accept(wd, events, {"Paths": '{"p1", "p2", "p3"}', "Contents": '{"c1", "c2", "c3", "c4"}'})
+    rejected = accept(wd, events, {"Paths": '{"p1", "p2", "p3", "p4"}', "Contents": '{"c1", "c2", "c3", "c4", "c5"}'})
     for k, clause in sorted(rejected.items()):
         hi, si = owner[k]
         h = allh[hi][: si + 1]
@@ -211,7 +218,7 @@ def replay(path: str) -> int:
         return 2
     evs = [e for e in r[1] if e["exc"] != "precondition"]
     wd = workdir(PROP, "replay")
-    rej = accept(wd, evs, {"Paths": '{"p1", "p2", "p3"}', "Contents": '{"c1", "c2", "c3", "c4"}'}, name="replay")
+    rej = accept(wd, evs, {"Paths": '{"p1", "p2", "p3", "p4"}', "Contents": '{"c1", "c2", "c3", "c4", "c5"}'}, name="replay")
     for k, e in enumerate(evs):
         print(k, e["op"], "->", e["post"]["outcome"], e["exc"], "REJECTED " + rej[k] if k in rej else "")
     if rej:
